@@ -60,7 +60,7 @@ LITERAL_PROGRAMS = [
 def literal_matrix():
     """string literals of every prefix / quote style around contents that text-level stages like to touch, in four positions"""
     contents = ["Options:\n\n    -v  verbose\n", "a  \nb\t\nc", "top\n\n\n\n\nbottom", "key:\n\n  nested:\n\n    leaf\n", "x\x0cy", "p\x0bq", "r\x1cs\x1dt\x1eu",
-                "one\u2028two\u2029three", "n\x85m", "  leading and trailing  \n   \n", "if x:\n\n\n    pass\n", "import os\nimport sys\n\n\n\nprint(1)\n", "a\\\nb"]
+                "one\u2028two\u2029three", "n\x85m", "  leading and trailing  \n   \n", "if x:\n\n\n    pass\n", "import os\nimport sys\n\n\n\nprint(1)\n", "a\\\nb", "a\nmiddle\nend", "first line\nsecond line\nthird line\n"]
     out = []
     for prefix in ("", "r", "b", "f", "rb"):
         for q in ("'" * 3, '"' * 3):
@@ -74,7 +74,10 @@ def literal_matrix():
                 lit = prefix + q + c + q
                 doc = lit if prefix == "" else "pass"
                 for prog in (f"X = {lit}\nprint(repr(X))\n", f"def g():\n    y = {lit}\n    return y\n\n\nprint(repr(g()))\n",
-                             f"def h():\n    {doc}\n    return 1\n\n\nprint(h.__doc__)\n", f"print(len([0, {lit}, 1]), repr({lit}))\n"):
+                             f"def h():\n    {doc}\n    return 1\n\n\nprint(h.__doc__)\n", f"print(len([0, {lit}, 1]), repr({lit}))\n",
+                             # inside brackets that the code formatter re-flows, with blank lines next to the literal
+                             f"X = (\n\n    {lit})\nprint(repr(X))\n", f"Y = [\n    1,\n\n    {lit},\n\n    2,\n]\nprint(Y)\n",
+                             f"def k():\n    return dict(\n\n        a={lit},\n\n        b=1)\n\n\nprint(k())\n"):
                     try:
                         compile(prog, "<lit>", "exec")
                     except (SyntaxError, ValueError):
@@ -137,8 +140,8 @@ def stages_oracle(ctx):
             if sweep.key(sha, {}, stage) in base:
                 continue
             s.disagreements.append({"sha": sha, "src": src, "stage": stage, "out": out, "family": fam, "what": f"layout stage {stage}: {why}"})
-    s.note = ("a matrix of string literals (5 prefixes x 2 quote styles x 13 contents: colon-blank-indent, trailing blanks, blank runs, form feed / VT / FS-GS-RS / NEL / "
-              "U+2028-9, code-like text; as module value, local, docstring, argument; plus one-line literals with raw separators) + 13 literal-heavy programs (triple-quoted with blank runs / trailing blanks / tabs, raw, bytes, f-strings with format specs, long lines, names starting with 'elif') + corpus + "
+    s.note = ("a matrix of string literals (5 prefixes x 2 quote styles x 15 contents: colon-blank-indent, trailing blanks, blank runs, form feed / VT / FS-GS-RS / NEL / "
+              "U+2028-9, code-like text; as module value, local, docstring, argument, and inside re-flowed brackets with blank lines next to the literal; plus one-line literals with raw separators) + 13 literal-heavy programs (triple-quoted with blank runs / trailing blanks / tabs, raw, bytes, f-strings with format specs, long lines, names starting with 'elif') + corpus + "
               "odd-layout inputs: ast.dump unchanged by fix_too_many_blank_lines, rmspace, sort_imports, fix_import_spacing, fix_line_lengths at 60/79/100/140, the diff minimisation")
     return s
 
